@@ -401,6 +401,12 @@ func checkBinarySearch(c *Ctx, r *Rec, info *types.Info, set *types.Named, fd *a
 		}
 		return nil
 	}()
+	// a local copy of the field (var collator = v.collator_) is the field
+	if id, ok := ast.Unparen(rankRecv).(*ast.Ident); ok && rankRecv != nil {
+		if init := initOf(info, fd, id); init != nil {
+			rankRecv = init
+		}
+	}
 	if rankRecv == nil || selectorField(info, rankRecv) != collF {
 		fail("the ranking is not done by the set's own collator field")
 		return
@@ -482,6 +488,7 @@ func checkBinarySearch(c *Ctx, r *Rec, info *types.Info, set *types.Named, fd *a
 		{"value ranks equal to the probe", eq(rank, k(equal)), "found", nil, nil},
 	} {
 		matched := false
+		assertions := 0
 		for _, p := range paths {
 			full := append(append(Cube{}, env.base...), p.Cube...)
 			if sat, _ := satF(full, arm.when); !sat {
@@ -491,6 +498,12 @@ func checkBinarySearch(c *Ctx, r *Rec, info *types.Info, set *types.Named, fd *a
 				full = append(full, cb...)
 			}
 			if s, _ := feasible(full); !s {
+				continue
+			}
+			if p.Kind == "panic" {
+				// an assertion inside the step: whether it can fire is a question about invariants
+				// this rule does not carry (last <= size, ...); it is not the step
+				assertions++
 				continue
 			}
 			matched = true
@@ -524,7 +537,9 @@ func checkBinarySearch(c *Ctx, r *Rec, info *types.Info, set *types.Named, fd *a
 					map[string]string{"value ranks before the probe": "the probe and everything after it rank after the value", "value ranks after the probe": "the probe and everything before it rank before the value"}[arm.name]))
 			}
 		}
-		if !matched {
+		if !matched && assertions > 0 {
+			viol = append(viol, "when the "+arm.name+": every path of the step panics")
+		} else if !matched {
 			viol = append(viol, "no path handles the case that the "+arm.name)
 		}
 	}
